@@ -253,6 +253,20 @@ def rules(ctx, db):
             ctx.ob("R6", "notified-key-is-popped-key:" + f.name, ok,
                    "the completed entry is built from the key popped for this event", f)
 
+    # R8 fusion dispatch: every method of the fused driver forwards to the same-named method of whichever driver is active
+    fus = [f for f in db.fns.values() if f.impl and f.impl.get("self_adt") == "compio_driver::sys::driver::fusion::Driver"
+           and f.short not in ("new", "as_iour", "as_iour_mut", "default_extra", "as_raw_fd", "fmt")]
+    if fus:
+        ctx.rule("R8", "PARITY", "the fused driver forwards each call to the same-named method of both underlying drivers")
+        ctx.floor("R8", "forwarding methods of fusion::Driver", len(fus), 7)
+        for f in fus:
+            tg = [t.get("fn", "") for bb, t in f.calls() if re.search(r"^compio_driver::sys::driver::(iour|poll)::Driver::\w+$", t.get("fn", ""))]
+            names = {x.rsplit("::", 1)[-1] for x in tg}
+            backs = {x.split("::driver::")[1].split("::")[0] for x in tg}
+            ctx.ob("R8", "fusion-forwards:" + f.short, names == {f.short} and backs == {"iour", "poll"},
+                   "fusion::Driver::%s forwards to %s of the io_uring *and* the polling driver (a result or a "
+                   "cancellation routed to a different operation breaks 'its own result')" % (f.short, f.short), f)
+
     # R7 thread-pool closures
     fz = [(f, bb, t) for f, bb, t in db.callers_of(r"^compio_driver::key::ErasedKey::freeze$") if not f.blocks[bb]["cl"]]
     for f, bb, t in fz:
